@@ -3,6 +3,7 @@ import Bmc.Proofs.GenLoops.BuildAndSend
 import Bmc.Proofs.GenLoops.BuildAndSendCommand
 import Bmc.Proofs.EndToEnd.SessionC09
 import Bmc.Proofs.EndToEnd.SessionlessC09
+import Bmc.Proofs.EndToEnd.HistoryC09
 #print axioms Bmc.Proofs.C09.command_seqs
 #print axioms Bmc.Proofs.C09.serialise_failure_consumes_nothing
 #print axioms Bmc.Proofs.C09.history_seqs
@@ -22,3 +23,6 @@ import Bmc.Proofs.EndToEnd.SessionlessC09
 #print axioms Bmc.Proofs.GenLoops.V2Sessionless_SendCommand_events_eq
 #print axioms Bmc.Proofs.EndToEnd.generated_loop_sequence_numbers
 #print axioms Bmc.Proofs.EndToEnd.generated_sessionless_loop_null_session
+#print axioms Bmc.Proofs.EndToEnd.generatedHistory_eq
+#print axioms Bmc.Proofs.EndToEnd.generated_history_sequence_numbers
+#print axioms Bmc.Proofs.EndToEnd.generated_history_no_reuse
